@@ -26,7 +26,16 @@ void *coap_realloc_type(coap_memory_tag_t type, void *p, size_t size) {
   (void)type;
   _Bool alloc_fail = nondet_alloc_fail();
   if (alloc_fail) return NULL;
-  return realloc(p, size);
+#ifdef VERIF_REALLOC_COPIES
+  return realloc(p, size);               /* bounded tier: contents of the common prefix preserved */
+#else
+  /* proof tier: a fresh block of exactly `size` bytes with arbitrary contents, old block released.
+   * Over-approximates realloc (contents havocked); byte-content clauses live in the bounded tier. */
+  void *q = malloc(size);
+  if (q == NULL) return NULL;
+  free(p);
+  return q;
+#endif
 }
 void coap_free_type(coap_memory_tag_t type, void *p) { (void)type; free(p); }
 coap_log_t nondet_log_level(void);
